@@ -202,14 +202,15 @@ let pg_of_pool (spec : string) : pg option =
 
 (* one call: what the registered constructor returned (ok | nil | err | - = not called: its config could not be
    filled) -> the model's arguments of [factory_call] *)
-let pg_call (g : pg) (c : string) : bool * nat option * pval list =
-  let direct = (g.p_shape = "ie" || g.p_shape = "fie") in
+let pg_call ?(num_out = 2) (g : pg) (c : string) : bool * nat option * pval list =
+  let direct = if num_out = 2 then (g.p_shape = "ie" || g.p_shape = "fie") else g.p_shape = "i1" in
   let conf = if c = "-" then Some (nat_of_int 2) else None in
   let objnil = (c = "nil") || (c = "err" && g.p_nil) in
   let e = if c = "err" then Some (nat_of_int 1) else None in
   let out = (match g.p_shape with
     | "pe" | "cpe" | "fpe" -> [ VImpl objnil; VErr e ]
     | "ie" | "cie" | "fie" -> [ VPlug objnil; VErr e ]
+    | "i1" -> [ VPlug objnil ]
     | _ -> [ VImpl objnil ]) in
   (direct, conf, out)
 
@@ -532,6 +533,28 @@ let predict (c : string) (obs : string) : string * string * bool =
         else "ok" in
       let nontrivial = all_fails <> [] || List.mem "X0" toks || npools > 1 || cancel <> "none" in
       (pred, verdict, nontrivial)
+  | [ "fact"; num_out; shape; _k; _calls ] ->
+      (* a factory built by the real plugin registry, called outside the engine: every call against the model
+         ([factory_call tree_cvprog], prediction) and the specification ([factory_spec], verdict) *)
+      let num_out = int_of_string num_out in
+      let fobs = field (split_blank obs) "F" in
+      (match pg_of_pool (Printf.sprintf "0,0,0,0,pg-gun-%s,0,0,0" shape) with
+       | None -> ("unknown-case", "BAD:unknown-case", false)
+       | Some g ->
+           let calls = if fobs = "" || fobs = "none" then []
+             else List.map (fun it -> match String.split_on_char '/' it with [ c; f ] -> (c, f) | _ -> (it, "?")) (String.split_on_char '.' fobs) in
+           let pred = String.concat "." (List.map (fun (c, _) ->
+             let (direct, conf, out) = pg_call ~num_out g c in
+             c ^ "/" ^ fres_name (factory_call tree_cvprog (nat_of_int num_out) direct conf out)) calls) in
+           let bad = List.find_map (fun (c, f) ->
+             let (direct, conf, out) = pg_call ~num_out g c in
+             let want = fres_name (factory_spec (nat_of_int num_out) (if direct then None else conf) out) in
+             if f = want then None
+             else if want = "err" || want = "perr" then
+               Some (Printf.sprintf "BAD:outcome:factory-nil-despite-creation-failure:gun-factory-of-the-plugin-registry numOut=%d shape=%s constructor=%s factory=%s want=%s" num_out shape c f want)
+             else Some (Printf.sprintf "BAD:outcome:factory-result-not-the-constructors:gun-factory-of-the-plugin-registry numOut=%d shape=%s constructor=%s factory=%s want=%s" num_out shape c f want)) calls in
+           ("F=" ^ (if calls = [] then fobs else pred), (match bad with Some m -> m | None -> "ok"),
+            List.exists (fun (c, _) -> c = "err" || c = "-") calls))
   | _ -> ("unknown-case", "BAD:unknown-case", false)
 
 let () = run_cases predict
